@@ -108,6 +108,8 @@ def py_block(stmts) -> list:
 			out.append(('continue',))
 		elif isinstance(s, ast.Raise):
 			out.append(('raise',))
+		elif isinstance(s, ast.Try) and len(s.handlers) == 1 and not s.orelse and not s.finalbody and isinstance(s.handlers[0].type, ast.Name) and s.handlers[0].type.id == 'Exception':
+			out.append(('try', py_block(s.body), py_block(s.handlers[0].body)))
 		elif isinstance(s, ast.Pass):
 			pass
 		elif isinstance(s, ast.Expr):
@@ -450,6 +452,14 @@ class CppParser:
 			self.eat()
 			self.eat(';')
 			return ('continue',)
+		if t == 'try':
+			self.eat()
+			body = self.block()
+			self.eat('catch')
+			self.eat('(')
+			while self.eat() != ')':
+				pass
+			return ('try', body, self.block())
 		if t == 'throw':
 			while self.eat() != ';':
 				pass
